@@ -206,7 +206,8 @@ def ensure_variant(name, jobs=None):
         if V.get('ldflags'): args += ['LDFLAGS=' + V['ldflags']]
         run(args, cwd=b, out=os.path.join(b, 'configure.out'))
         tgt = []
-        run(['make', '-j%d' % jobs] + tgt, cwd=b, out=os.path.join(b, 'make.out'))
+        # MAKEINFO=true: the info manual is written into the shared source directory (concurrent variant builds would race)
+        run(['make', '-j%d' % jobs, 'MAKEINFO=true'] + tgt, cwd=b, out=os.path.join(b, 'make.out'))
         if not os.path.exists(os.path.join(b, '.libs', 'libmpir.a')):
             raise BuildError('no libmpir.a for ' + name)
         # record effective CFLAGS
